@@ -21,7 +21,8 @@
 From Coq Require Import List ZArith NArith String Bool.
 From SCC Require Import Base.Sexp Lang.AxSyn Lang.FunSyn Lang.CoreSyn Sem.AxSem Sem.CoreSem Sem.FunSem Sem.X86Sem
      Model.Backend Model.Fun2Core Model.Focus Model.FocusCheck Model.Shrink Model.Linearize Model.LinCheck Model.X86 Model.Runtime
-     Proof.Compose.
+     Proof.Compose Proof.ComposeFocus Proof.FocusFrag Proof.UqAeq.
+From SCC Require Import Model.FocusGuard.
 Import ListNotations.
 Open Scope Z_scope.
 
@@ -69,3 +70,24 @@ Theorem C01_runtime_output_is_render :
     bytes_of_string (render_prints ps) = flat_map runtime_bytes ps.
 Proof. exact render_prints_is_runtime_output. Qed.
 Print Assumptions C01_runtime_output_is_render.
+
+(* The focusing link discharged: for Core translation outputs that are chirality-consistently scoped
+   (cs_prog) and satisfy static_ok (Model/FocusGuard.v: simply typed - tc_prog, the boolean Core type
+   checker with exact annotations - or inside one of the syntactic guards sg_prog), H_focus is a
+   theorem (C03_uniquify_focus_preserves_static) and disappears from the composition.  (H_focus itself,
+   a universal statement over all programs of the right shape, is false: C03_focus_preserves_statement_refuted.) *)
+Theorem C01_compile_correct_focus_discharged_partial :
+  H_fun2core -> H_shrink -> H_x86 ->
+  forall (p : fcprog) (c : cprog) (f : fsprog) (a : prog) (cs : list xcode) (nargs : nat) (lc lc' : N)
+         (args : list Z) (n : nat) (o : obs),
+    annotated_fcprog p = true -> effect_sequenced p = true -> barendregt p = true ->
+    compile_prog p = Fun2Core.Ok c -> pre_check c = true -> focus_wf c = true ->
+    cs_prog c = true -> static_ok c = true ->
+    focus_prog c = Backend.Ok f -> shrink_prog f = SOk a -> prog_ok a = true ->
+    x86_compile (linearize a) lc = Backend.Ok (cs, nargs, lc') ->
+    run_fun n p args = o -> out_ok o ->
+    (exists outer inner, fst (run_x86 outer inner cs args) = o) /\
+    (Forall (fun pz => in_i64 (snd pz)) (fst o) ->
+     bytes_of_string (render_prints (fst o)) = flat_map runtime_bytes (fst o)).
+Proof. exact compile_correct_focus_discharged. Qed.
+Print Assumptions C01_compile_correct_focus_discharged_partial.
